@@ -1,4 +1,15 @@
 """C15 -- preconditioning is an exact change of variables."""
 from props._common import run_solver_property
+
+def _sparse_precond_stage(ctx):
+    # sparse::RuizEquilibration transcribed (coq/PrecondSparse.v, proved equal to the dense model) vs the real template
+    try:
+        import precsparse_stage
+        precsparse_stage.precond_sparse_stage(ctx)
+    except Exception:
+        import traceback
+        ctx.ob("correspondence:precsparse-model", "correspondence", False, "stage failed: " + traceback.format_exc()[-800:])
+
 def run(ctx):
-    return run_solver_property(ctx, "C15", codes=("C15",), focus_mix=("updates", "bounds", "updates", "mixed"), preconds_quick=("ruiz",))
+    return run_solver_property(ctx, "C15", codes=("C15",), focus_mix=("updates", "bounds", "updates", "mixed"), preconds_quick=("ruiz",),
+                               extra_theorem_files=("Properties_C15_sparse.v",), extra_stage=_sparse_precond_stage)
